@@ -433,8 +433,9 @@ func (e *Engine) verifapi(fr *frame, fn *ssa.Function, a []Value) Value {
 		switch c := a[0].(type) {
 		case bool:
 			if !c {
+				// recorded; the path goes on so that later assertions are evaluated too
 				e.violation(id, "assert", "assertion false on this path", nil)
-				panic(pathEnd{kind: "violated", msg: id})
+				e.violatedOnPath = true
 			}
 		case *Term:
 			nc := e.ts.Not(c)
